@@ -57,6 +57,23 @@ pub fn run(out: &mut Out, tier: &str, rng: &mut Rng) {
             sess::run_case(out, &inst, "sess", &[Ev::Bytes(s), Ev::Close(*rng.pick(&Close::ALL))], true);
             out.count(&format!("length-sweep type {:#x}", ty));
         }
+        // every proper prefix of the payload, framed correctly (a well-formed frame whose content stops early)
+        for k in 1..payload.len() {
+            let mut s = session_frame(0x10, "p").bytes;
+            s.extend(sess::frame(*ty, &payload[..k]));
+            s.extend(sess::frame(0x45, &[0x1E, 1]));
+            sess::run_case(out, &inst, "sess", &[Ev::Bytes(s), Ev::Close(*rng.pick(&Close::ALL))], true);
+            out.count("payload prefix, correctly framed");
+        }
+        // every one-byte and a sample of two-byte payloads
+        for v in 0..=255u8 {
+            let mut s = session_frame(0x10, "o").bytes;
+            s.extend(sess::frame(*ty, &[v]));
+            s.extend(sess::frame(*ty, &[v, rng.byte()]));
+            s.extend(sess::frame(0x45, &[0x1E, 1]));
+            sess::run_case(out, &inst, "sess", &[Ev::Bytes(s), Ev::Close(Close::Eof)], true);
+            out.count("one- and two-byte payloads");
+        }
         // truncation at every offset
         let f = sess::frame(*ty, payload);
         for cut in 0..f.len() {
